@@ -36,7 +36,7 @@ var lastLog []string
 // ---- program ---------------------------------------------------------------------------------------
 
 type Op struct {
-	K string `json:"k"` // progress start prequorum pre agree cons cert flood post postquorum timeout replay loop
+	K string `json:"k"` // ab progress start prequorum pre agree cons cert flood post postquorum timeout replay loop
 	// start: slot = previous started slot + D (first start: Prog.Slot0 + D)
 	D int `json:"d,omitempty"`
 	// sender (member id 1..N; Self is skipped for forged messages)
@@ -66,7 +66,9 @@ type Prog struct {
 	Role   string `json:"role"` // attester proposer proposer-blinded aggregator sync-committee contribution
 	Direct bool   `json:"direct,omitempty"`
 	Slot0  uint64 `json:"slot0"`
-	Ops    []Op   `json:"ops"`
+	// Forks: epochs at which the beacon chain's fork version (hence every signing domain) changes
+	Forks []uint64 `json:"forks,omitempty"`
+	Ops   []Op     `json:"ops"`
 }
 
 var roleNames = []string{"attester", "proposer", "proposer-blinded", "aggregator", "sync-committee", "contribution"}
@@ -133,20 +135,22 @@ type signKey struct {
 }
 
 type world struct {
-	p          Prog
-	s          *dutysim.Sim
-	role       spectypes.BeaconRole
-	id         spectypes.MessageID
-	cur        *dutyRec
-	duties     []*dutyRec
-	last       phase0.Slot // slot of the most recent start attempt
-	startedAny bool
-	pool       []poolMsg
-	signed     map[signKey]int // (duty slot, object root, domain) -> op of the first signature
-	sent       map[string]bool // agree bookkeeping: type/height/round/member
-	log        []string
-	cls        map[string]bool
-	fail       *prog.Failure
+	p           Prog
+	s           *dutysim.Sim
+	role        spectypes.BeaconRole
+	id          spectypes.MessageID
+	cur         *dutyRec
+	duties      []*dutyRec
+	last        phase0.Slot // slot of the most recent start attempt
+	startedAny  bool
+	startedAny2 bool
+	straddled   bool
+	pool        []poolMsg
+	signed      map[signKey]int // (duty slot, object root, domain) -> op of the first signature
+	sent        map[string]bool // agree bookkeeping: type/height/round/member
+	log         []string
+	cls         map[string]bool
+	fail        *prog.Failure
 }
 
 func (w *world) logf(f string, a ...any) { w.log = append(w.log, fmt.Sprintf(f, a...)) }
@@ -317,9 +321,17 @@ func (w *world) judge(op, fromSeq int, opKind string, foreign bool, startDuty *s
 			}
 			objs, dt := s.PreObjects(startDuty)
 			okObj := false
+			okRoot := false
 			for _, o := range objs {
 				hr, _ := o.HashTreeRoot()
-				okObj = okObj || (hr == r.ObjRoot && dt == r.DomainType)
+				if hr == r.ObjRoot && dt == r.DomainType {
+					okObj = true
+					okRoot = okRoot || r.SigningRoot == s.SigningRootAt(o, dt, startDuty.Slot)
+				}
+			}
+			if okObj && !okRoot && r.Err == nil {
+				w.failf("pre-sig-wrong-domain", "op %d: pre-consensus proof of the started duty (slot %d, epoch %d) signed under a domain that is not that epoch's", op, startDuty.Slot, dutysim.Network.EstimatedEpochAtSlot(startDuty.Slot))
+				return
 			}
 			if !okObj {
 				w.failf("pre-sig-wrong-object", "op %d: pre-consensus signature over %x is not a slot-bound proof of the started duty (slot %d)", op, r.ObjRoot[:6], startDuty.Slot)
@@ -363,14 +375,27 @@ func (w *world) judge(op, fromSeq int, opKind string, foreign bool, startDuty *s
 		}
 		objs, dt, err := dutysim.PostObjects(w.role, value)
 		okObj := false
+		okRoot := false
+		var valueSlot phase0.Slot
 		if err == nil {
+			cd := &spectypes.ConsensusData{}
+			_ = cd.Decode(value)
+			valueSlot = cd.Duty.Slot
 			for _, o := range objs {
 				hr, _ := o.HashTreeRoot()
-				okObj = okObj || (hr == r.ObjRoot && dt == r.DomainType)
+				if hr == r.ObjRoot && dt == r.DomainType {
+					okObj = true
+					// ... and by signing root: under the domain of the decided duty's epoch, computed here
+					okRoot = okRoot || r.SigningRoot == s.SigningRootAt(o, dt, valueSlot)
+				}
 			}
 		}
 		if !okObj {
-			w.failf("post-sig-not-in-decided-value", "op %d: signed object %x (domain %x) is not derivable from the decided value", op, r.ObjRoot[:6], r.DomainType[:])
+			w.failf("post-sig-not-in-decided-value", "op %d: signed object %x (domain %x) is not derivable from the value decided for the running duty (slot %d)", op, r.ObjRoot[:6], r.DomainType[:], w.cur.slot)
+			return
+		}
+		if !okRoot && r.Err == nil {
+			w.failf("post-sig-wrong-domain", "op %d: duty object %x of the decided value (duty slot %d, epoch %d) signed under a domain that is not that epoch's", op, r.ObjRoot[:6], valueSlot, dutysim.Network.EstimatedEpochAtSlot(valueSlot))
 			return
 		}
 		k := signKey{w.cur.slot, r.ObjRoot, r.DomainType}
@@ -466,6 +491,14 @@ func (w *world) start(d int) {
 			v = 0
 		}
 		slot = phase0.Slot(v)
+	}
+	if w.startedAny2 && dutysim.ForkVersion(w.p.Forks, dutysim.Network.EstimatedEpochAtSlot(slot)) != dutysim.ForkVersion(w.p.Forks, dutysim.Network.EstimatedEpochAtSlot(w.last)) {
+		w.cls["fork:duty-sequence-straddles-a-fork"] = true
+		w.straddled = true
+	}
+	w.startedAny2 = true
+	if dutysim.ForkVersion(w.p.Forks, dutysim.Network.EstimatedEpochAtSlot(slot)) != dutysim.ForkVersion(nil, 0) {
+		w.cls["fork:duty-after-a-fork"] = true
 	}
 	w.last = slot
 	duty := w.s.Duty(w.role, slot)
@@ -871,6 +904,73 @@ func (w *world) progress(o Op) {
 	}
 }
 
+// decide drives the running duty to its decision: pre-consensus quorum where the role has one, then either
+// the other members' proposal / prepares / commits or a certificate (fallback when the former does not decide).
+func (w *world) decide(val string, byCert bool) {
+	w.preQuorum(0)
+	if !byCert {
+		w.agree(Op{Val: val})
+	}
+	if sn := w.s.Snap(w.role); w.cur != nil && sn.HasInstance && !sn.InstDecided && w.fail == nil {
+		v := val
+		if v != "alt" {
+			v = "own"
+		}
+		sm := w.s.Cert(w.s.QuorumOthers(), w.id[:], specqbft.Height(w.cur.slot), 1, w.value(w.cur.slot, v))
+		w.deliver(dutysim.ConsensusSSV(w.id, sm), false, "decide: certificate")
+	}
+}
+
+// ab is the "state not reset on one path" shape: duty A is driven to a chosen point (T: pre = abandoned before
+// the decision, decided = decided and own post-consensus signature made but no post-consensus quorum, finished),
+// then duty B of the same role (same validator positions / subcommittee indices) at slot +D is driven to the
+// decision and through post-consensus. Whatever B signs must come from B's decided value.
+func (w *world) ab(o Op) {
+	w.start(1)
+	a := w.cur
+	phase := o.T
+	switch phase {
+	case "pre":
+		if o.Limit > 0 {
+			w.preQuorum(o.Limit)
+		}
+	case "finished":
+		w.decide("own", o.Mut == "cert")
+		w.postQuorum(0)
+	default:
+		phase = "decided"
+		w.decide("own", o.Mut == "cert")
+	}
+	reached := "abandoned-before-decision"
+	if a != nil && a.finished {
+		reached = "finished"
+	} else if a != nil && a.decided {
+		reached = "decided-without-post-consensus-quorum"
+	}
+	d := o.D
+	if d < 1 {
+		d = 1
+	}
+	w.start(d)
+	b := w.cur
+	if b == nil || b == a || w.fail != nil {
+		return
+	}
+	w.decide(o.Val, o.Mut != "cert") // the other way round than A
+	w.postQuorum(0)
+	if w.fail != nil {
+		return
+	}
+	switch {
+	case b.finished:
+		w.cls["ab:A="+reached+":B=finished:"+w.p.Role] = true
+	case b.decided:
+		w.cls["ab:A="+reached+":B=decided-only"] = true
+	default:
+		w.cls["ab:A="+reached+":B=not-decided"] = true
+	}
+}
+
 func (w *world) timeout(o Op) {
 	t := w.s.Timers[w.role]
 	arm, ok := t.Last()
@@ -925,7 +1025,7 @@ var slashRoots = dutysim.SlashableRootsFor(slashSlots())
 func run(p Prog) *prog.Result {
 	res := &prog.Result{}
 	role := beaconRole(p.Role)
-	cfg := dutysim.Config{N: p.N, Self: spectypes.OperatorID(p.Self), Blinded: p.Role == "proposer-blinded", Direct: p.Direct}
+	cfg := dutysim.Config{N: p.N, Self: spectypes.OperatorID(p.Self), Blinded: p.Role == "proposer-blinded", Direct: p.Direct, ForkEpochs: p.Forks}
 	if role == spectypes.BNRoleAttester {
 		cfg.SlashableRoots = slashRoots
 	}
@@ -942,6 +1042,8 @@ func run(p Prog) *prog.Result {
 			w.start(o.D)
 		case "progress":
 			w.progress(o)
+		case "ab":
+			w.ab(o)
 		case "prequorum":
 			w.preQuorum(o.Limit)
 		case "pre":
@@ -1008,7 +1110,7 @@ var goodVals = []string{"own", "own", "alt", "alt-slot"}
 var anyVals = append([]string{"own", "own", "own", "alt"}, dutysim.ValueVariants...)
 
 func genOp(t *rapid.T) Op {
-	kinds := []string{"progress", "progress", "progress", "progress", "progress", "progress", "progress", "progress", "progress", "start", "prequorum", "prequorum", "pre", "agree", "agree", "agree", "cons", "cons", "cons", "cert", "cert", "cert", "cert", "flood", "post", "post", "postquorum", "postquorum", "timeout", "replay", "replay", "loop"}
+	kinds := []string{"ab", "progress", "progress", "progress", "progress", "progress", "progress", "progress", "progress", "progress", "start", "prequorum", "prequorum", "pre", "agree", "agree", "agree", "cons", "cons", "cons", "cert", "cert", "cert", "cert", "flood", "post", "post", "postquorum", "postquorum", "timeout", "replay", "replay", "loop"}
 	o := Op{K: rapid.SampledFrom(kinds).Draw(t, "k")}
 	switch o.K {
 	case "start":
@@ -1038,6 +1140,12 @@ func genOp(t *rapid.T) Op {
 		o.Val = rapid.SampledFrom(anyVals).Draw(t, "val")
 		o.Mut = rapid.SampledFrom(certMuts).Draw(t, "mut")
 		o.NS = rapid.SampledFrom([]int{0, 0, 0, 1, 9, -1}).Draw(t, "ns")
+	case "ab":
+		o.T = rapid.SampledFrom([]string{"decided", "decided", "decided", "pre", "finished"}).Draw(t, "a-phase")
+		o.D = rapid.SampledFrom([]int{1, 1, 2}).Draw(t, "d")
+		o.Val = rapid.SampledFrom([]string{"own", "own", "alt"}).Draw(t, "val")
+		o.Mut = rapid.SampledFrom([]string{"", "cert", "cert"}).Draw(t, "how")
+		o.Limit = rapid.IntRange(0, 2).Draw(t, "limit")
 	case "flood":
 		o.H = rapid.IntRange(0, 2).Draw(t, "h")
 		o.NS = rapid.IntRange(0, 2).Draw(t, "then")
@@ -1059,8 +1167,25 @@ func genFor(sizes []int, maxOps int) func(t *rapid.T) Prog {
 			Slot0:  rapid.Uint64Range(1, 40).Draw(t, "slot0"),
 		}
 		p.Self = rapid.IntRange(1, p.N).Draw(t, "self")
+		// fork epochs: none (half of the cases); or one right after the first duties' epoch, with the first slot
+		// moved to the end of its epoch so that consecutive duties (+1..+3 slots) straddle the fork; or drawn freely
+		switch rapid.IntRange(0, 9).Draw(t, "forks") {
+		case 0, 1, 2, 3:
+			e := rapid.Uint64Range(1, 2).Draw(t, "fork-epoch")
+			p.Forks = []uint64{e}
+			p.Slot0 = 32*e - uint64(rapid.IntRange(1, 3).Draw(t, "before-fork"))
+		case 4:
+			p.Forks = rapid.SliceOfNDistinct(rapid.Uint64Range(0, 3), 1, 2, rapid.ID[uint64]).Draw(t, "fork-epochs")
+		}
 		// most histories begin by starting a duty (messages before any duty are generated too)
-		if rapid.IntRange(0, 7).Draw(t, "cold") != 0 {
+		switch c := rapid.IntRange(0, 9).Draw(t, "opening"); {
+		case c <= 2:
+			o := genOp(t)
+			for o.K != "ab" {
+				o = Op{K: "ab", T: "decided", D: 1, Val: "own"}
+			}
+			p.Ops = append(p.Ops, o)
+		case c <= 8:
 			p.Ops = append(p.Ops, Op{K: "start", D: 0})
 		}
 		p.Ops = append(p.Ops, rapid.SliceOfN(rapid.Custom(genOp), 4, maxOps).Draw(t, "ops")...)
